@@ -296,6 +296,23 @@ def main(argv=None) -> int:
     if not violations:
         errors.extend(continue_errors)
 
+    # a unit that left the supported subset (a construct the encoder does not know) is undecided --
+    # unless it is a function declared pure and the bounded native search finds an input on which
+    # the real function violates one of its (proved or oracle) postconditions
+    for r in results:
+        if r.undecided and any("unsupported" in u for u in r.undecided) and r.unit not in tried:
+            try:
+                from pyvc.falsify import falsify_typed
+
+                tried[r.unit] = falsify_typed(r.unit, prop)
+            except Exception as e:
+                tried[r.unit] = {"clause_violated": False, "skipped": repr(e)}
+            out_f = tried[r.unit]
+            if out_f.get("clause_violated"):
+                violations.append(("falsifier:" + r.unit, {"obligation": r.unit.split(":")[1] + "." + out_f.get("violated_clause", "postcondition"), "input": json.dumps(out_f.get("inputs"), default=str),
+                                                              "result": out_f.get("result"), "clause": out_f.get("clause"), "how": out_f.get("how"),
+                                                              "note": "the unit is outside the verifier's subset on this tree; violation found by the bounded native search"}))
+
     # baseline obligation count (vacuity: contracts silently generating fewer obligations)
     base_path = os.path.join(VERIF, "contracts", "baseline.json")
     baseline = json.load(open(base_path)) if os.path.exists(base_path) else {}
